@@ -139,6 +139,9 @@ def eval_chain(ct, node: ast.expr, holes: Dict[str, Any]):
         if cls is None:
             raise TemplateError(f"schema.{node.attr} is not a facade property")
         return cls, {n: M.NilV for n in S.PROP_NAMES[cls]}, []
+    if isinstance(node, ast.Call) and isinstance(node.func, ast.Attribute) and isinstance(node.func.value, ast.Name) \
+            and node.func.value.id == "schema" and node.func.attr == "any":
+        return any_call(ct, node, holes)
     if isinstance(node, ast.Call):
         f = node.func
         args = [arg_value(a, holes) for a in node.args]
@@ -164,6 +167,30 @@ def eval_chain(ct, node: ast.expr, holes: Dict[str, Any]):
         view2.update(upd)
         return cls, view2, conds + [z3.Not(rc)]
     raise TemplateError(f"unexpected syntax {type(node).__name__} in the printed DSL")
+
+
+def any_call(ct, node: ast.Call, holes: Dict[str, Any]):
+    """`schema.any(*texts)`: the contract of AnySchema.__call__ (contracts/combinators.py, proved against the real body:
+    raises exactly when an argument is not a schema -- the receiver `schema.any` has nothing declared --, and keeps the
+    arguments as the alternatives, in order, when none of them is itself a declared union), applied to the argument
+    sequence the texts evaluate to.  `schema.any()` without arguments is a TypeError."""
+    from .combinators import no_declared_any
+    if node.keywords or len(node.args) != 1 or not isinstance(node.args[0], ast.Starred) or \
+            not isinstance(node.args[0].value, ast.Name) or holes.get(node.args[0].value.id, ("",))[0] != "seq":
+        raise TemplateError("schema.any(...) with arguments that are not one joined sequence of member texts")
+    L = holes[node.args[0].value.id][1]
+    R = M.fresh("anyargs")
+    j = z3.Int("aaj")
+    LITERAL_FACTS.append(lambda ct, R=R, L=L: z3.And(
+        M.is_Ref(R), M.rcls(R) == ct.id("tuple"), M.llen(R) == M.llen(L),
+        z3.ForAll([j], z3.Implies(z3.And(0 <= j, j < M.llen(L)), M.lat(R, j) == pyval(M.sval(M.lat(L, j)))),
+                  patterns=[M.lat(R, j)])))
+    conds = [M.llen(L) >= 1,
+             z3.ForAll([j], z3.Implies(z3.And(0 <= j, j < M.llen(R)), S.is_schema(ct, M.lat(R, j))), patterns=[M.lat(R, j)]),
+             no_declared_any(ct, R)]
+    view = {n: M.NilV for n in S.PROP_NAMES["AnySchema"]}
+    view["types"] = R
+    return "AnySchema", view, conds
 
 
 def arg_value(a: ast.expr, holes: Dict[str, Any]) -> Any:
@@ -209,9 +236,9 @@ def rebuilds(ct, cls: str, Sx: Any, r: Any) -> Any:
         return z3.BoolVal(False)
     same = []
     for n in S.PROP_NAMES[cls]:
-        if n == "elements":      # lists are compared by content
+        if n in ("elements", "types"):      # lists / tuples are compared by content
             a_, b_ = view[n], S.prop(Sx, n)
-            islist = M.isinstance_f(ct, b_, "list")
+            islist = z3.Or(M.isinstance_f(ct, b_, "list"), M.isinstance_f(ct, b_, "tuple"))
             ej = z3.Int("sej")
             same.append(z3.If(islist, z3.And(
                 a_ != M.NilV, M.llen(a_) == M.llen(b_),
@@ -280,3 +307,28 @@ def _inv_rep_list(L):
                                             z3.And(M.is_StrV(M.lat(elems, j)),
                                                    pyval(M.sval(M.lat(elems, j))) == M.lat(E, j))),
                             patterns=[M.lat(elems, j)]))
+
+
+# ----------------------------------------------------------------------------- unions
+def rep_visit_any(c):
+    ct = c.ct
+    c.built_self("Representor")
+    Sx = c.sym("schema", "AnySchema")
+    ind = c.sym("indent", "int")
+    c.kwargs()
+    for f in S.reach_def(ct, "AnySchema", Sx):
+        c.requires(f)
+    # domain of C06: schemas built through the declaration DSL -- AnySchema.__call__ (ensures[union], proved) leaves no
+    # declared union among the alternatives
+    from .combinators import no_declared_any, schemas_tuple
+    c.requires(z3.Implies(S.declared(Sx, "types"), z3.And(schemas_tuple(ct, S.prop(Sx, "types")),
+                                                          no_declared_any(ct, S.prop(Sx, "types")))), "alternatives-flat")
+    c.requires(M.is_intlike(ind), "indent-int")
+    c.raises(props=("C06",))
+    c.returns("str")
+    c.ensures("text-rebuilds-the-schema", lambda r, post: rebuilds(ct, "AnySchema", Sx, r), ("C06",))
+    c.meta = {"cls": "AnySchema"}
+    c.no_merge = True
+
+
+contract(REP, "Representor.visit_any", props=("C06", "C07"), group="representor")(rep_visit_any)
